@@ -207,6 +207,16 @@ static void ReceivedRawBunch(struct utcp_connection* fd, struct bitbuf* bitbuf, 
 			// Verify that UConnection::ReceivedPacket has passed us a valid bunch.
 			assert(utcp_bunch->ChSequence > utcp_channel->InReliable);
 
+			// UChannel::ReceivedRawBunch bounds the queue (RELIABLE_BUFFER): beyond it ChSequence, which travels
+			// modulo UTCP_MAX_CHSEQUENCE, could no longer be made absolute. Refuse the bunch and do not ack the packet,
+			// the peer resends it.
+			if (utcp_channel->NumInRec + 1 >= UTCP_RELIABLE_BUFFER)
+			{
+				utcp_log(Warning, "[%s]Too many reliable messages queued up", fd->debug_name);
+				*bOutSkipAck = true;
+				break;
+			}
+
 			if (enqueue_incoming_data(utcp_channel, utcp_bunch_node))
 				utcp_bunch_node = NULL;
 			break;
